@@ -32,28 +32,56 @@ def crc32(b):
 
 
 class _W:
+    """Byte sink that also records the token stream (so that structure-aware mutation can replace
+    one NUMBER / id byte and re-emit everything else unchanged)."""
+
     def __init__(self, nonminimal=0):
         self.b = bytearray()
         self.nm = nonminimal
+        self.tokens = []
 
     def byte(self, v):
         self.b.append(v)
+        self.tokens.append(("b", v))
 
     def raw(self, data):
         self.b += data
+        self.tokens.append(("r", bytes(data)))
 
     def num(self, v):
-        if self.nm:
-            minimal = len(encode_number(v))
-            self.b += encode_number(v, min(9, minimal + self.nm))
-        else:
-            self.b += encode_number(v)
+        self.tokens.append(("n", v))
+        self.b += _enc_num(v, self.nm)
 
     def u32(self, v):
         self.b += struct.pack("<L", v)
+        self.tokens.append(("u32", v))
 
     def u64(self, v):
         self.b += struct.pack("<Q", v)
+        self.tokens.append(("u64", v))
+
+
+def _enc_num(v, nm=0):
+    if nm:
+        minimal = len(encode_number(v))
+        return encode_number(v, min(9, minimal + nm))
+    return encode_number(v)
+
+
+def emit_tokens(tokens, nonminimal=0) -> bytes:
+    out = bytearray()
+    for kind, v in tokens:
+        if kind == "b":
+            out.append(v & 0xFF)
+        elif kind == "r":
+            out += v
+        elif kind == "n":
+            out += _enc_num(v & ((1 << 64) - 1), nonminimal)
+        elif kind == "u32":
+            out += struct.pack("<L", v & 0xFFFFFFFF)
+        elif kind == "u64":
+            out += struct.pack("<Q", v & ((1 << 64) - 1))
+    return bytes(out)
 
 
 def encode_chain(chain, data: bytes, password=None, rng=None):
@@ -179,7 +207,9 @@ def _files_info(w: _W, members, layout):
     w.byte(0x00)
 
 
-def build(members, layout=None, password=None, rng=None) -> bytes:
+def build(members, layout=None, password=None, rng=None, token_hook=None, header_bytes_hook=None) -> bytes:
+    """token_hook(tokens) -> tokens: structure-aware mutation of the raw header before sealing;
+    header_bytes_hook(bytes) -> bytes: byte-level mutation of the raw header before sealing/encoding."""
     layout = dict(layout or {})
     nm = layout.get("nonminimal", 0)
     stream_members = [m for m in members if m["kind"] in ("file", "symlink")]
@@ -230,6 +260,10 @@ def build(members, layout=None, password=None, rng=None) -> bytes:
         _files_info(w, members, layout)
     w.byte(0x00)
     raw_header = bytes(w.b)
+    if token_hook is not None:
+        raw_header = emit_tokens(token_hook(list(w.tokens)), nm)
+    if header_bytes_hook is not None:
+        raw_header = header_bytes_hook(raw_header)
     hmode = layout.get("header", "raw")
     if not members and not folders and layout.get("empty_as_zero", True) and hmode == "raw":
         header = b""
